@@ -515,6 +515,8 @@ def s2v_tasks(quick):
         for first in S2V_LENS:
             T.append((0.15, ("s2v", kl, kind, first)))
     T.append((0.1, ("s2v-limit",)))
+    for first in S2V_HIST_LENS + ("d",):
+        T.append((0.3, ("s2v-hist", 5 if quick else 6, first)))
     return T
 
 
@@ -528,6 +530,57 @@ def t_s2v(t, acc):
     for shape in shapes:
         check_s2v(key, [_s2v_val(kind, i, n) for i, n in enumerate(shape)], acc)
     acc.sample({"part": "s2v", "key_len": kl, "values": kind, "shapes": len(shapes), "last_shape": list(shapes[-1])})
+
+
+S2V_HIST_LENS = (0, 5, 16, 17)
+
+
+def s2v_history(key, hist, acc):
+    """hist: sequence of component lengths (update) and "d" (derive) on ONE _S2V object; every derive() must be S2V of the
+    components fed so far (RFC 5297 2.4 defines S2V as a function of the vector; derive() is documented without a
+    restriction on being called once)"""
+    from Crypto.Protocol import KDF
+    from Crypto.Cipher import AES
+    from ..ref import modes, aes
+    s = KDF._S2V.new(key, ciphermod=AES)
+    comps = []
+    for n, op in enumerate(hist):
+        acc.count("evaluations")
+        if op == "d":
+            r = run_lib(s.derive)
+            exp = modes.s2v(aes.AES(key), comps)
+            if r[0] == "exc" or bytes(r[1]) != exp:
+                got = "raised %s" % type(r[1]).__name__ if r[0] == "exc" else bytes(r[1]).hex()
+                acc.violation("C12/s2v/history/derive-depends-on-earlier-calls",
+                              "_S2V object, calls %s: derive() gives %s, S2V of the %d components fed so far is %s"
+                              % ([("update(%d bytes)" % o if o != "d" else "derive()") for o in hist[:n + 1]], got, len(comps), exp.hex()),
+                              {"part": "s2v-history", "key": key, "hist": list(hist[:n + 1])}, size=n + 1)
+                return False
+        else:
+            c = _s2v_val("seed", len(comps), op)
+            r = run_lib(lambda: s.update(c))
+            if r[0] == "exc":
+                raised(acc, "C12/s2v/history", "_S2V.update after %s" % (list(hist[:n]),),
+                       {"part": "s2v-history", "key": key, "hist": list(hist[:n + 1])}, r[1])
+                return False
+            comps.append(c)
+    return True
+
+
+def t_s2v_hist(t, acc):
+    _, depth, first = t
+    key = _s2v_val("asc", 7, 16)
+    ops = S2V_HIST_LENS + ("d",)
+    n = 0
+    for d in range(1, depth):
+        for rest in itertools.product(ops, repeat=d):
+            hist = (first,) + rest
+            if "d" not in hist:
+                continue
+            s2v_history(key, hist, acc)
+            n += 1
+    acc.count("s2v/histories", n)
+    acc.seen("classes", ("s2v-history", depth, first))
 
 
 def t_s2v_limit(t, acc):
